@@ -150,6 +150,7 @@ func suiteHubSubs(o *Out, r *Rng, n int, tier string) {
 			src  bstream.Source
 			mu   sync.Mutex
 			got  []uint64
+			bad  bool // received an event without its block: no point pacing the feeder on it any more
 		}
 		subs := make([]*subRec, k)
 		start := make(chan struct{})
@@ -162,6 +163,13 @@ func suiteHubSubs(o *Out, r *Rng, n int, tier string) {
 				defer wg.Done()
 				<-start
 				h := bstream.HandlerFunc(func(blk *pbbstream.Block, obj interface{}) error {
+					if blk == nil || obj == nil { // an event without its block: recorded as height 0, breaks contiguity
+						sr.mu.Lock()
+						sr.got = append(sr.got, 0)
+						sr.bad = true
+						sr.mu.Unlock()
+						return nil
+					}
 					if s, ok := obj.(bstream.Stepable); ok && s.Step().Matches(bstream.StepNew) {
 						sr.mu.Lock()
 						sr.got = append(sr.got, blk.Number)
@@ -200,7 +208,7 @@ func suiteHubSubs(o *Out, r *Rng, n int, tier string) {
 					continue
 				}
 				sr.mu.Lock()
-				ok := len(sr.got) > 0 && sr.got[len(sr.got)-1] >= num
+				ok := sr.bad || (len(sr.got) > 0 && sr.got[len(sr.got)-1] >= num)
 				sr.mu.Unlock()
 				if !ok {
 					return false
@@ -240,7 +248,7 @@ func suiteHubSubs(o *Out, r *Rng, n int, tier string) {
 					continue
 				}
 				sr.mu.Lock()
-				okk := len(sr.got) > 0 && sr.got[len(sr.got)-1] == final
+				okk := sr.bad || (len(sr.got) > 0 && sr.got[len(sr.got)-1] == final)
 				sr.mu.Unlock()
 				if !okk {
 					all = false
